@@ -705,10 +705,14 @@ theorem updatePredict_shift (core : Core) (mode : FhMode) (k : Int) (s : FState)
     updatePredict core mode (shiftState k s) (Series.shift k y) cv up =
       shiftPair k (updatePredict core mode s y cv up) := by
   unfold updatePredict
-  rw [cvSpecOf_shift]
-  cases cvSpecOf s cv with
-  | error e => rfl
-  | ok c => exact updatePredictWith_shift core mode k s y c up
+  simp only [shiftState_fitted]
+  by_cases hfit : s.fitted = true
+  · simp only [hfit, Bool.not_true, Bool.false_eq_true, ↓reduceIte]
+    rw [cvSpecOf_shift]
+    cases cvSpecOf s cv with
+    | error e => rfl
+    | ok c => exact updatePredictWith_shift core mode k s y c up
+  · simp [hfit, shiftPair, shiftOut]
 
 theorem step_shift (core : Core) (mode : FhMode) (k : Int) (s : FState) (op : Op) :
     step core mode (shiftState k s) (shiftOp k op) =
